@@ -18,12 +18,27 @@ def main():
     seed = int(os.environ.get("VERIF_SEED", "0") or 0)
     prop = args.prop.upper()
     mod = importlib.import_module(f"harness.props.{prop.lower()}")
+    rec = None
     if args.replay:
+        import json
         os.environ["VERIF_KEEP_REPLAYS"] = "1"
+        rec = json.load(open(args.replay))
+        # a replay re-creates the situation of the recorded run: same seed, same tier
+        seed = int(rec.get("seed", seed))
+        tier = rec.get("tier", tier) if rec.get("tier") in ("quick", "thorough") else tier
     ctx = Ctx(prop, tier, seed, getattr(mod, "LEVEL", "proof"))
     try:
-        if args.replay:
-            mod.replay(ctx, args.replay)
+        if rec is not None and rec.get("found_input"):
+            try:
+                mod.replay(ctx, args.replay)
+            except Exception:
+                print("replay: the single recorded case could not be re-run in isolation; re-running the whole check with the recorded seed and tier", flush=True)
+                ctx = Ctx(prop, tier, seed, getattr(mod, "LEVEL", "proof"))
+                mod.run(ctx)
+        elif rec is not None:
+            print(f"replay: the record names an obligation / correspondence that no longer checks ({rec.get('what')}); "
+                  "re-running the whole check with the recorded seed and tier", flush=True)
+            mod.run(ctx)
         else:
             mod.run(ctx)
     except Exception:  # machinery failure is reported, never swallowed
